@@ -341,6 +341,9 @@ type RaceReport struct {
 	Frames []string // function names with file (no line numbers) of both stacks
 	Text   string
 	Repo   bool // has a frame under /repo (NRI code)
+	// TopRepo: the innermost frame of at least one of the two racing accesses is NRI code. A race whose
+	// two accesses both sit in harness code is a harness bug even if NRI frames are further up the stack.
+	TopRepo bool
 }
 
 var (
@@ -392,6 +395,7 @@ func mkRace(lines []string) RaceReport {
 	var fn string
 	section := 0 // 1,2 = the two access stacks; >2 = goroutine creation
 	var keyParts []string
+	topSeen := map[int]bool{}
 	for _, l := range lines {
 		switch {
 		case strings.HasPrefix(l, "Read at"), strings.HasPrefix(l, "Write at"),
@@ -413,6 +417,12 @@ func mkRace(lines []string) RaceReport {
 				r.Repo = true
 			}
 			if section == 1 || section == 2 {
+				if !topSeen[section] {
+					topSeen[section] = true
+					if strings.HasPrefix(file, "/repo/") {
+						r.TopRepo = true
+					}
+				}
 				keyParts = append(keyParts, fmt.Sprintf("%d:%s", section, fn))
 			}
 			fn = ""
